@@ -7,12 +7,15 @@
        entry;
      - every raise that can happen inside reports, once propagated, the globals of the outermost entry state.
    Program level: for every program that uses neither ignore_errors() nor the block API, on every input.
+   Block API (Proofs/BlockFrame.v): EVERY program without ignore_errors() -- block-API statements at any nesting included -- that
+   completes leaves the guard, the error-suppression mode and LinComb.ONE exactly as it found them and no branch context open
+   (C08_block_programs_restore_on_completion: the saved triples of the open contexts form a chain back to the base triple).
    NOT covered by a theorem (decided on the real code by the harness probes): that the effective guard VALUE
    inside nested regions is the product of the enclosing conditions (PARTIAL there); exceptions inside block-API
    regions (_if/_while), which have no try/finally -- recorded as a known finding when observed. *)
 From Coq Require Import ZArith List Bool.
 From PySnark.Model Require Import Lc Sym Gadgets Api Prog.
-From PySnark.Proofs Require Import Meta Frame ProgFrame Wp WpBase GadgetsOK Values.
+From PySnark.Proofs Require Import Meta Frame ProgFrame Wp WpBase GadgetsOK Values ProgOK BlockFrame.
 Import ListNotations.
 Open Scope Z_scope.
 
@@ -61,7 +64,23 @@ Example C08_example :
   raised (model_run (p:=65537) {| bitlength := 4%nat; resolution := 0 |} pr [1; 3] false) = Some (AssertionError, (None, false, [(0, 1)])).
 Proof. vm_compute. split; reflexivity. Qed.
 
+(* the block API: _if / _elif / _else / _endif, _while / _breakif / _endwhile, _range / _endfor, at any nesting, mixed with all
+   other statements.  A program whose trace generation completes ends in the initial guard state with no context left open. *)
+Theorem C08_block_programs_restore_on_completion : forall (p : Z) (c : cfg) (pr : list stmt) b' s' cs, forallb noign pr = true ->
+  run (gen_stmts c pr bst0) (init_gst (p:=p)) = (inl b', s', cs) ->
+  cur_triple s' = cur_triple (init_gst (p:=p)) /\ bstack b' = [].
+Proof. intros p c. exact (block_program_restores c). Qed.
+
+(* non-vacuity: generation of a program with an _if block inside a while loop with a break completes *)
+Example C08_block_example :
+  let pr := [SInput 0 IPriv 0; SInput 1 IPrivBool 1; SBSet 7 0;
+             SOWhile [SBin 5 OLt 0 0] 5 2 [SOIf 1 [SBin 2 OMul 0 0; SBSet 7 2] [] None; SBreakIf 1];
+             SBGet 3 7] in
+  exists b' s' cs, run (gen_stmts (p:=65537) {| bitlength := 8%nat; resolution := 0 |} pr bst0) (init_gst (p:=65537)) = (inl b', s', cs) /\ forallb noign pr = true.
+Proof. cbv zeta. eexists. eexists. eexists. split; [vm_compute; reflexivity|reflexivity]. Qed.
+
 Print Assumptions C08_restored_on_return.
+Print Assumptions C08_block_programs_restore_on_completion.
 Print Assumptions C08_restored_on_exception.
 Print Assumptions C08_program_exception.
 Print Assumptions C08_nested_guard_is_the_conjunction.
